@@ -390,6 +390,12 @@ def run_property(plan, tier, seed, t_start):
             elif status == "inconclusive":
                 inconclusive.append("pre-step %s: %s" % (label, detail.get("what")))
 
+    if any(r["status"] == "inconclusive" for r in pre_results):
+        for i in inconclusive[:10]:
+            print("INCONCLUSIVE property=%s %s" % (pid, i))
+        write_evidence(plan, tier, seed, t_start, [], {}, inconclusive, violations, known_lines, pre_results)
+        return 2
+
     rc, out, res = run_kani(plan, wdir, crate, tier)
     by = index_results(res)
     if res is None or not by:
